@@ -58,6 +58,24 @@ def _sc():
     S.append(('mx_timed', 'C01', 2, 'mutex 0', [(0, 'lock 0 -1;tick 50;unlock 0'), (1, 'lock 0 100;unlock 0')], [], ['']))
     S.append(('mx_timed_race', 'C01', 2, 'mutex 0', [(0, 'lock 0 -1;tick 100;unlock 0'), (1, 'lock 0 100;unlock 0'), (1, L)], [], ['']))
     S.append(('mx_intr', 'C01', 3, 'mutex 0', [(0, 'lock 0 -1;unlock 0'), (1, 'lock 0 -1;unlock 0'), (2, 'interrupt 1 4')], [], ['']))
+    # ---- C01 contending-mode mutexes (mutex(retries, true): unlock() frees the mutex and wakes the head, the woken waiter competes again)
+    # owner re-locks right after its unlock / a late locker on either vCPU takes the freed mutex before the woken waiter runs
+    S.append(('cmx_relock', 'C01', 2, 'mutex 0 1', [(0, L + ';' + L), (1, L)], ['0@26:0,0@101:0,1!,0@26:0,0,1!,0!,1!'], ['', '0@26:0,0@101:0,1!']))
+    S.append(('cmx_late', 'C01', 2, 'mutex 0 1', [(0, L), (1, L), (0, 'try_lock 0;unlock 0'), (1, L)], ['0@26:0,0@101:0,1!,0@26:2,0,1!,0!,1!'], ['', '0@26:0,0@101:0,1!']))
+    S.append(('cmx_retry', 'C01', 2, 'mutex 2 1', [(0, L + ';' + L), (0, L), (1, L), (1, L)], [], ['']))
+    S.append(('cmx_timed', 'C01', 2, 'mutex 0 1', [(0, 'lock 0 -1;tick 50;unlock 0;lock 0 -1;tick 100;unlock 0'), (1, 'lock 0 100;unlock 0')], [], ['']))
+    # ---- C01 recursive_mutex: the owner (depth 1) unlocks while a waiter on the other vCPU is queued; the waiter then nests a
+    # lock/unlock pair and stays inside; a prober on the old owner's vCPU tries / locks
+    RL1, RW = 'rlock 0 -1;runlock 0', 'rlock 0 -1;rlock 0 -1;runlock 0'
+    RPRE = '0@26:0,0@101:0,1!,0@4:m0.sp,'
+    S.append(('rmx_nested_stay', 'C01', 2, 'rmutex 0', [(0, RL1), (1, RW), (0, 'rtry 0;runlock 0')],
+              [RPRE + '1@101:1,0@101:2,1@4:m0.sp,0!,1!', RPRE + '1!,0!'], ['', '0@26:0,0@101:0,1!']))
+    S.append(('rmx_nested', 'C01', 2, 'rmutex 0', [(0, RL1), (1, RW + ';runlock 0'), (0, 'rtry 0;runlock 0')],
+              [RPRE + '1@101:1,0@101:2,1@4:m0.sp,0!,1!', RPRE + '1!,0!'], ['', '0@26:0,0@101:0,1!']))
+    S.append(('rmx_nested_locker', 'C01', 2, 'rmutex 0', [(0, RL1), (1, RW + ';runlock 0'), (0, RL1)],
+              [RPRE + '1!,0!,1!'], ['', '0@26:0,0@101:0,1!']))
+    S.append(('rmx_depth2', 'C01', 2, 'rmutex 1', [(0, 'rlock 0 -1;rtry 0;runlock 0;runlock 0'), (0, RL1), (1, RW + ';runlock 0'), (1, 'rtry 0;runlock 0')], [], ['']))
+    S.append(('rcmx_relock', 'C01', 2, 'rmutex 0 1', [(0, RL1 + ';' + RL1), (1, RW + ';runlock 0')], ['0@26:0,0@101:0,1!,0@26:0,0,1!,0!,1!'], ['', '0@26:0,0@101:0,1!']))
     # ---- C02 semaphore (uniform demands): signal vs a waiter between its failed subtract and its enqueue
     S.append(('sem_1w1s', 'C02', 2, 'sem 0', [(0, 'sem_wait 0 1 -1'), (1, 'sem_signal 0 1')], ['0@2:s0.sp,1!,0!', '0@3:s0.q,1!,0!'], ['']))
     S.append(('sem_2w2s', 'C02', 3, 'sem 0', [(0, 'sem_wait 0 1 -1'), (0, 'sem_wait 0 1 -1'), (1, 'sem_signal 0 1'), (2, 'sem_signal 0 1')], [], ['', '0!']))
@@ -100,7 +118,8 @@ SCENARIOS = _sc()
 # scenarios in which every thread must finish its script under EVERY schedule (all waits untimed or harmlessly timed, every lock
 # is released, every demand is covered): a thread still blocked at quiescence is a lost hand-off / wake-up / admission
 NO_BARGING = {'sem_mixed_intr', 'sem_mixed_timeout'}
-MUST_COMPLETE = {'mx_handoff', 'mx_late', 'mx_retry', 'mx_twice', 'mx_timed', 'mx_timed_race', 'mx_intr', 'sem_1w1s', 'sem_2w2s', 'sem_d2', 'sem_pingpong',
+MUST_COMPLETE = {'cmx_relock', 'cmx_late', 'cmx_retry', 'rmx_nested', 'rmx_nested_locker', 'rmx_depth2', 'rcmx_relock',
+                 'mx_handoff', 'mx_late', 'mx_retry', 'mx_twice', 'mx_timed', 'mx_timed_race', 'mx_intr', 'sem_1w1s', 'sem_2w2s', 'sem_d2', 'sem_pingpong',
                  'sem_timed', 'rw_rw', 'rw_rwr', 'rw_wwr', 'rw_readers', 'rw_default_retries', 'cv_all_vs_timeout',
                  'sd_fin', 'intr_race', 'intr_2s', 'sleep_deadlines'}
 
@@ -232,6 +251,8 @@ def mutex_oracle(run, mi):
                     out.append('mutex %d: T%d releases it (op %d) but the log says the holder is %s' % (mi, o['tid'], o['pc'], holder))
                 holder = None
         else:
+            if o['name'] == 'unlock' and o['args'][0] == mi and o['aux'] == 1:
+                out.append('mutex %d: unlock of T%d (op %d) returned but owner == the caller (the mutex is left stuck)' % (mi, o['tid'], o['pc']))
             got = (o['name'] in ('lock', 'try_lock') and o['args'][0] == mi and o['ret'] == 0) or (o['name'] == 'cv_wait' and o['args'][1] == mi)
             if acq(o) and o['name'] != 'cv_wait' and (o['ret'] == 0) != (o['aux'] == 1):
                 out.append('mutex %d: %s of T%d returned %d/errno %d but owner %s the caller (lock() result must match ownership)' % (mi, o['name'], o['tid'], o['ret'], o['err'], '==' if o['aux'] else '!='))
@@ -244,8 +265,12 @@ def mutex_oracle(run, mi):
             if o['name'] == 'lock' and o['args'][0] == mi:
                 m = errno_ok(run, o, o['args'][1])
                 if m: out.append(m)
-    # quiescence: nobody is linked in the wait queue of a free mutex
+    # quiescence: nobody is linked in the wait queue of a free mutex; the owner field agrees with the log
     if not run.prefix:
+        m = re.match(r'o=([^,]*)', run.finq.get('m%d' % mi, ''))
+        if m and m.group(1) != ('-' if holder is None else str(holder)):
+            out.append('mutex %d: at quiescence owner = %s but by the log %s (%s)' % (mi, 'T' + m.group(1) if m.group(1) != '-' else 'nobody',
+                       'nobody holds it' if holder is None else 'T%d holds it' % holder, 'the mutex is left stuck' if holder is None else 'released under its holder'))
         inq = [t for t, a, b in run.membership('m%d' % mi) if b is None]
         if inq and holder is None:
             out.append('mutex %d is FREE at quiescence but T%s sleep%s in its wait queue (hand-off lost); final state %s' % (mi, ','.join(map(str, inq)), 's' if len(inq) == 1 else '', run.finq.get('m%d' % mi)))
@@ -267,6 +292,74 @@ def mutex_oracle(run, mi):
                 out.append('mutex %d: lock(%d us) of T%d returned -1/ETIMEDOUT (now=%d) although unlock of T%d had completed at virtual time %d < deadline %d and nobody else '
                            'was acquiring: the waiter was not served by the unlock' % (mi, L['args'][1], L['tid'], L['r_now'], U['tid'], U['r_vc'], D))
                 break
+    return out
+
+
+def rmutex_oracle(run, mi):
+    """C01 on recursive_mutex object mi.  Occupancy by OWNERSHIP DEPTH, from the log only: T is inside from the return of its
+    outermost successful lock / try_lock to the START of the matching outermost unlock.  Never two threads inside (so: a
+    try_lock / lock by somebody else succeeds only if nobody is inside); result 0 iff owner == CURRENT at return; a lock by a
+    thread that is inside succeeds; after an unlock the caller is the owner iff it is still inside (a nested unlock must not
+    release, the outermost one must); at quiescence the owner field is the thread that is inside (or nobody) and nobody
+    sleeps on / is blocked in lock() of a free mutex."""
+    out = []
+    depth = {}
+    def inside(): return sorted(t for t, d in depth.items() if d > 0)
+    for i, e in enumerate(run.events):
+        if e[0] not in ('S', 'R'):
+            continue
+        o = run.ops[(e[1], e[2])]
+        if o['name'] not in ('rlock', 'rtry', 'runlock') or o['args'][0] != mi or not run.executed(o):
+            continue
+        t = o['tid']
+        if e[0] == 'S':
+            if o['name'] == 'runlock':
+                if depth.get(t, 0) <= 0:
+                    out.append('recursive mutex %d: T%d unlocks (op %d) at depth 0' % (mi, t, o['pc']))
+                depth[t] = depth.get(t, 0) - 1
+            continue
+        if o['name'] == 'runlock':
+            d = depth.get(t, 0)
+            if d > 0 and o['aux'] != 1:
+                out.append('recursive mutex %d: the NESTED unlock of T%d (op %d) gave the mutex away: T%d is still inside (depth %d) but is not the owner any more'
+                           % (mi, t, o['pc'], t, d))
+            if d == 0 and o['aux'] == 1:
+                out.append('recursive mutex %d: the OUTERMOST unlock of T%d (op %d) returned but T%d is still the owner (the mutex is left stuck)' % (mi, t, o['pc'], t))
+            continue
+        # rlock / rtry return
+        what = 'lock' if o['name'] == 'rlock' else 'try_lock'
+        if (o['ret'] == 0) != (o['aux'] == 1):
+            out.append('recursive mutex %d: %s of T%d (op %d) returned %d/errno %d but owner %s the caller (lock() result must match ownership)'
+                       % (mi, what, t, o['pc'], o['ret'], o['err'], '==' if o['aux'] else '!='))
+        if o['ret'] == 0:
+            oth = [x for x in inside() if x != t]
+            if oth:
+                out.append('recursive mutex %d: %s of T%d (op %d) SUCCEEDED while T%s %s inside (depth %s): two threads inside the region'
+                           % (mi, what, t, o['pc'], ',T'.join(map(str, oth)), 'is' if len(oth) == 1 else 'are', ','.join(str(depth[x]) for x in oth)))
+            depth[t] = depth.get(t, 0) + 1
+        else:
+            if depth.get(t, 0) > 0:
+                out.append('recursive mutex %d: %s of T%d (op %d) FAILED (%d/errno %d) although T%d is inside (depth %d): a nested lock by the owner always succeeds'
+                           % (mi, what, t, o['pc'], o['ret'], o['err'], t, depth[t]))
+        if o['name'] == 'rlock':
+            m = errno_ok(run, o, o['args'][1])
+            if m: out.append(m)
+    if not run.prefix:
+        ins = inside()
+        fin = run.finq.get('m%d' % mi, '')
+        m = re.match(r'o=([^,]*),rc=(-?\d+)', fin)
+        if m and len(ins) <= 1:
+            exp = str(ins[0]) if ins else '-'
+            if m.group(1) != exp:
+                out.append('recursive mutex %d: at quiescence owner = %s but by the log %s; final state %s' % (mi, 'T' + m.group(1) if m.group(1) != '-' else 'nobody',
+                           ('T%d is inside at depth %d (released under its holder)' % (ins[0], depth[ins[0]])) if ins else 'nobody is inside (the mutex is left stuck)', fin))
+        inq = [t for t, a, b in run.membership('m%d' % mi) if b is None]
+        if inq and not ins:
+            out.append('recursive mutex %d is FREE at quiescence but T%s sleep%s in its wait queue (hand-off lost); final state %s' % (mi, ','.join(map(str, inq)), 's' if len(inq) == 1 else '', fin))
+        for (t, pc) in run.blocked:
+            o = run.ops.get((t, pc))
+            if o and o['r'] is None and o['name'] == 'rlock' and o['args'][0] == mi and not ins and t not in inq:
+                out.append('recursive mutex %d is free at quiescence but T%d is still blocked in lock()' % (mi, t))
     return out
 
 
@@ -526,6 +619,9 @@ def judge(run, cov, scenario=None):
         if d[0] == 'mutex':
             m = mutex_oracle(run, i)
             if m: res.setdefault('C03' if i in cvm else 'C01', []).extend(m)
+        elif d[0] == 'rmutex':
+            m = rmutex_oracle(run, i)
+            if m: res.setdefault('C01', []).extend(m)
         elif d[0] == 'sem':
             m = sem_oracle(run, i)
             if m: res.setdefault('C02', []).extend(m)
@@ -598,11 +694,15 @@ def _run(props, tier, seed, budget_s, scenarios, exe, tmp, t0):
     cov = {}
     budget = budget_s or (20 if tier == 'quick' else 240) * max(1, len(props))      # search time; the build adds ~10-15 s
     # stage 1: hand-written schedules + calibration (number of decisions per scenario, throughput)
+    # the minimum work (stage 1 + the first round) is bounded per PROPERTY, not per scenario: on a loaded machine (5-30 runs/s) a
+    # property with many scenarios (C01: 16) must not overrun its budget
+    dense = len(scs) > 12 * max(1, len(props))
+    floor0 = max(4, 144 * max(1, len(props)) // len(scs)) if dense else 16
     cases1, meta1 = [], []
     for sc in scs:
         for pre in sc[5]:
             cases1.append(case_line(sc, 'mode=rr pre=' + pre)); meta1.append((sc, 'directed'))
-        for j, spec in enumerate(_sched_strings(sc, 4, seed * 7 + 1, 60)):
+        for j, spec in enumerate(_sched_strings(sc, 2 if dense else 4, seed * 7 + 1, 60)):
             cases1.append(case_line(sc, spec)); meta1.append((sc, 'calib'))
     ta = time.time()
     outs1 = vlib.run_cases(exe, cases1, tmp, 's1', timeout=600, env=env)
@@ -621,7 +721,7 @@ def _run(props, tier, seed, budget_s, scenarios, exe, tmp, t0):
     while done2 < cap:
         remaining = budget - (time.time() - t0)
         if rnd > 0 and remaining < 3: break
-        per = int(max(8 if rnd else 16, min(cap // len(scs) - done2 // len(scs), rate * max(remaining, 3.0) * (0.45 if rnd == 0 else 0.7) / len(scs))))
+        per = int(max(floor0 // 2 if rnd else floor0, min(cap // len(scs) - done2 // len(scs), rate * max(remaining, 3.0) * (0.45 if rnd == 0 else 0.7) / len(scs))))
         cases2, meta2 = [], []
         for sc in scs:
             for spec in strings(sc, done2 // len(scs), per):
@@ -653,10 +753,11 @@ def _run(props, tier, seed, budget_s, scenarios, exe, tmp, t0):
                 fails.setdefault((p, sc[0]), []).append((r, msgs))
     violations = []
     unrepro = 0
-    for (p, scn), lst in sorted(fails.items(), key=lambda kv: (kv[0][0] == '*', kv[0])):
+    excl = lambda msgs: not any(w in msgs[0] for w in ('two threads inside', 'two owners'))      # report a mutual-exclusion witness first
+    for (p, scn), lst in sorted(fails.items(), key=lambda kv: (kv[0][0] == '*', kv[0][0], min(excl(m) for _, m in kv[1]), kv[0][1])):
         if len([v for v in violations if v['_p'] == p]) >= 2:
             continue
-        lst.sort(key=lambda rm: len(rm[0].sched) if rm[0].ok else 10 ** 6)
+        lst.sort(key=lambda rm: (excl(rm[1]), len(rm[0].sched) if rm[0].ok else 10 ** 6))
         done = False
         for r, msgs in lst[:4]:
             # replay the exact schedule (twice, with the step trace) and judge again: report only what reproduces
